@@ -35,7 +35,7 @@ fn eval_case(sc: &Scenario) -> CaseOutcome {
 fn rule(prop: &str) -> &'static str {
     match prop {
         "C01" => "RTPS-object level: RtpsStatefulWriter + 1-2 RtpsStatefulReader (>=1 RELIABLE) driven directly; (a) exhaustive: every arrival schedule (each datagram of the initial transmission 0, 1 or 2 times, any order, bounded length) of small publication lists, then the heal loop; (b) generated: fragment size 8..=65000, sizes around k*f, history removals, event tape {publish, deliver/drop/duplicate #i, re-deliver old datagram, tick}; non-trivial = a DATA/DATA_FRAG datagram was dropped, duplicated or delivered out of order AND a repair (ACKNACK with bits, NACK_FRAG or GAP) was sent; distinct = exhaustive schedules are distinct by construction, generated cases by hash of the scenario",
-        "C02" => "RTPS-object level: RtpsStatefulWriter + 1-2 RtpsStatefulReader (>=1 BEST_EFFORT) driven directly; the harness sees every CacheChange the reader presents with its raw bytes; (a) exhaustive arrival schedules of small publication lists, (b) generated scenarios; non-trivial = a DATA/DATA_FRAG datagram was dropped, duplicated or delivered out of order; distinct = exhaustive schedules by construction, generated cases by hash of the scenario",
+        "C02" => "RTPS-object level: RtpsStatefulWriter + 1-2 RtpsStatefulReader (>=1 BEST_EFFORT) driven directly; the harness sees every CacheChange the reader presents with its raw bytes; a RELIABLE companion reader (1 scenario in 8) is held to the same safety demands only; (a) exhaustive arrival schedules of small publication lists, (b) generated scenarios; non-trivial = a DATA/DATA_FRAG datagram was dropped, duplicated or delivered out of order; distinct = exhaustive schedules by construction, generated cases by hash of the scenario",
         _ => "RTPS-object level: fragmenting writer and reassembling reader objects driven directly (RELIABLE and BEST_EFFORT readers); (a) exhaustive arrival schedules over the DATA_FRAG datagrams of small fragmented publication lists with last-fragment remainders k*f-1, k*f, k*f+1, (b) generated scenarios with fragment sizes over 8..=65000 and samples of up to 7 (occasionally > 256) fragments; non-trivial = the sample was fragmented on the wire AND a DATA_FRAG datagram was dropped, duplicated or delivered out of order; distinct = exhaustive schedules by construction, generated cases by hash of the scenario",
     }
 }
